@@ -76,6 +76,11 @@ type Stats struct {
 	DistinctOutcomes int
 	Bound            int
 	CapHit           bool
+	// Divergences counts replays of an already executed prefix that did not reproduce it (a source of
+	// nondeterminism the body does not route through Choose, e.g. map iteration order); Abandoned counts the
+	// subtrees given up after Retries further attempts. Only a Tolerant explorer continues past them.
+	Divergences int64
+	Abandoned   int64
 }
 
 type Explorer struct {
@@ -85,6 +90,10 @@ type Explorer struct {
 	Cap   int64 // max executions (0 = none)
 	// Stop, if non-nil, is polled; returning true ends exploration with CapHit.
 	Stop func() bool
+	// Tolerant: a replay divergence is retried up to Retries times and then abandons that subtree instead of
+	// ending the exploration with an error (the caller must report Divergences/Abandoned as a cap).
+	Tolerant bool
+	Retries  int
 
 	stats    Stats
 	outcomes map[uint64]struct{}
@@ -129,7 +138,17 @@ func (e *Explorer) explore(prefix []int, spent int) error {
 	}
 	r := e.run(prefix)
 	if r.Err != nil {
-		return r.Err
+		if !e.Tolerant {
+			return r.Err
+		}
+		e.stats.Divergences++
+		for k := 0; k < e.Retries && r.Err != nil; k++ {
+			r = e.run(prefix)
+		}
+		if r.Err != nil {
+			e.stats.Abandoned++
+			return nil
+		}
 	}
 	e.stats.Executions++
 	e.stats.ChoicePoints += int64(len(r.points))
